@@ -2,7 +2,6 @@ package c10
 
 import (
 	"fmt"
-	"os"
 	"reflect"
 	"strings"
 	"testing"
@@ -17,10 +16,6 @@ import (
 const funcsSrc = "fset = func(p, i, x) { p[i] = x }\n" +
 	"fapp = func(p, x) { p += x }\n" +
 	"fdel = func(p, k) { delete(p, k) }"
-
-// strictAppend turns off the exclusion of the shapes hit by the known defect
-// "appendSlice appends element by element" (see planApp).
-var strictAppend = os.Getenv("VERIF_C10_STRICT_APPEND") != ""
 
 // exec is one rendered step.
 type rendered struct {
@@ -384,9 +379,8 @@ func oracle(c Case, o *h.Obs) *h.Fail {
 			class("skip:%s", r.plan.skip)
 			continue
 		}
-		if r.plan.known != "" && !strictAppend {
-			class("skip:known_append_partial_write_%s", r.plan.known)
-			continue
+		if r.plan.known != "" {
+			class("append_shape_of_fixed_partial_write_defect:%s", r.plan.known)
 		}
 		for _, ic := range r.idx {
 			class("idx:%s:%s", r.t.cls, ic)
